@@ -62,6 +62,13 @@ func genC27(gen *sim.Stream) *c27Stream {
 			add(c27Fillers[gen.Draw(len(c27Fillers))])
 		}
 	}
+	if gen.Draw(3) == 2 {
+		// scripts usually start with a package clause: a chunk of its own
+		filler()
+		add("package main\n")
+		st.ChunksPrev++
+		st.Items = append(st.Items, "package")
+	}
 	before := gen.Draw(7)
 	for i := 0; i < before; i++ {
 		filler()
@@ -184,7 +191,7 @@ func runC27(t *testing.T, ch *sim.Choices, tier string) (o Outcome) {
 	_ = bufio.NewReader
 	text := out.String()
 	o.Hash = sim.Mix(sim.HashString(string(st.Data)), uint64(entry), uint64(f.MaxFrag))
-	o.EventHash = sim.HashString(text)
+	o.EventHash = sim.HashString(strings.ReplaceAll(text, wantFile, "<file>"))
 	o.Nontrivial = st.ChunksPrev >= 2
 	o.Sample = map[string]interface{}{"source": string(st.Data), "marker": fmt.Sprintf("%s at %d:%d", st.Kind, st.Line, st.Col), "entry": []string{"EvalReader", "EvalFile", "REPL"}[entry], "output": text}
 	// find the report
